@@ -20,6 +20,7 @@
 -/
 import Signac.Proofs.LifeRefineWs
 import Signac.Proofs.LifeNoWrite
+import Signac.Proofs.LifeOkRun
 namespace Signac.Refinement
 open Signac Signac.Life Signac.Refine
 
@@ -343,5 +344,138 @@ example : cexSrc ≠ (0, "x") ∧ cexW2 cexSrc = some cexS ∧ Settled cexCodec 
   ⟨by decide, by simp [cexW2, upd, cexW, cexSrc, cexDst], cexW_clean cexSrc cexS (by simp [cexW, cexSrc]),
    by simp [cexW2, upd], settled_fresh cexCodec "x" 2 rfl, by decide,
    by simp [cexW2, upd, cexDst], cexW_clean cexSrc cexS (by simp [cexW, cexSrc])⟩
+
+/- ================================================================================================
+   Every schedule: "a lifecycle operation that returns normally did exactly what its specification
+   says" (lemmas: Signac/Proofs/LifeOkRun.lean).
+   A run that consumed no fault and did not die is the event-free run (`run_eq_noEv_of_quiet`, all
+   programs); a normal return of init / move / clone consumed no fault under ANY schedule; a normal
+   return of re-key / remove / clear consumed no fault unless ENOENT was INJECTED — these three read
+   ENOENT as "not there" and go on, so the unrestricted statement is false (`ok_means_done_false`).
+   ================================================================================================ -/
+
+/-- all programs: no fault consumed and no death ⇒ the run IS the event-free run (whole outcome:
+    world, result, step count, trace, flag) -/
+theorem quiet_run_is_event_free (C : Codec Sp) (ev : Nat → Option Ev) (p : Prog Sp) (w : World Sp)
+    (hf : (run C ev p w).faulted = false) (hc : (run C ev p w).res ≠ .crashed) :
+    run C ev p w = run C noEv p w := run_eq_noEv_of_quiet C ev p w hf hc
+
+/-- all six operations (re-key: `x ≠ y`): a normal return is the event-free run, provided ENOENT
+    is not injected into re-key / remove / clear (`Op.readsENOENT`) -/
+theorem ok_run_is_event_free_partial (C : Codec Sp) (op : Op Sp) (hd : op.distinct) (ev : Nat → Option Ev)
+    (hne : op.readsENOENT → NoENOENT ev) (w : World Sp) (hok : (run C ev (op.prog C) w).res = .ok) :
+    run C ev (op.prog C) w = run C noEv (op.prog C) w :=
+  Life.ok_run_is_event_free_partial C op hd ev hne w hok
+
+/-- the statement asked for, over ALL schedules -/
+def ok_means_done_full : Prop :=
+  ∀ (Sp : Type) (C : Codec Sp) (op : Op Sp) (w : World Sp) (ev : Nat → Option Ev),
+    Clean C w → op.pre C (absW w) → (run C ev (op.prog C) w).res = .ok →
+    Clean C (run C ev (op.prog C) w).w ∧ absW (run C ev (op.prog C) w).w = (op.spec (absW w)).1 ∧
+      (op.spec (absW w)).2 = .ok
+
+/-- **ok_means_done**, the true variant: from a clean world, an operation with its abstract
+    precondition, ANY schedule (deaths, torn writes, faults anywhere — only ENOENT must not be
+    injected into re-key / remove / clear): if the call returns normally, the final world is clean,
+    its abstraction is the abstract operation's result state, the abstract result is ok as well —
+    and the run is the event-free run. -/
+theorem ok_means_done_partial (C : Codec Sp) (op : Op Sp) (w : World Sp) (hc : Clean C w)
+    (hp : op.pre C (absW w)) (ev : Nat → Option Ev) (hne : op.readsENOENT → NoENOENT ev)
+    (hok : (run C ev (op.prog C) w).res = .ok) :
+    Clean C (run C ev (op.prog C) w).w ∧ absW (run C ev (op.prog C) w).w = (op.spec (absW w)).1 ∧
+      (op.spec (absW w)).2 = .ok ∧ run C ev (op.prog C) w = run C noEv (op.prog C) w := by
+  have hd : op.distinct := by
+    cases op <;> simp only [Op.distinct]
+    exact hp.1
+  have h := Life.ok_run_is_event_free_partial C op hd ev hne w hok
+  obtain ⟨h1, h2, h3⟩ := op_refines C op w hc hp
+  rw [h] at hok ⊢
+  exact ⟨h2, h3, by rw [← h1, hok], rfl⟩
+
+/-- init, move, clone: under EVERY schedule, no proviso -/
+theorem ok_means_done_any_schedule (C : Codec Sp) (op : Op Sp) (hn : ¬ op.readsENOENT) (w : World Sp)
+    (hc : Clean C w) (hp : op.pre C (absW w)) (ev : Nat → Option Ev)
+    (hok : (run C ev (op.prog C) w).res = .ok) :
+    Clean C (run C ev (op.prog C) w).w ∧ absW (run C ev (op.prog C) w).w = (op.spec (absW w)).1 ∧
+      (op.spec (absW w)).2 = .ok :=
+  have h := ok_means_done_partial C op w hc hp ev (fun h => absurd h hn) hok
+  ⟨h.1, h.2.1, h.2.2.1⟩
+
+/-- re-key, remove, clear: every schedule without an injected ENOENT -/
+theorem ok_means_done_noENOENT (C : Codec Sp) (op : Op Sp) (w : World Sp) (hc : Clean C w)
+    (hp : op.pre C (absW w)) (ev : Nat → Option Ev) (hne : NoENOENT ev)
+    (hok : (run C ev (op.prog C) w).res = .ok) :
+    Clean C (run C ev (op.prog C) w).w ∧ absW (run C ev (op.prog C) w).w = (op.spec (absW w)).1 ∧
+      (op.spec (absW w)).2 = .ok :=
+  have h := ok_means_done_partial C op w hc hp ev (fun _ => hne) hok
+  ⟨h.1, h.2.1, h.2.2.1⟩
+
+theorem cex_remove_pre : (Op.remove cexSrc cexOrder : Op Nat).pre cexCodec (absW cexW) := by
+  rw [absW_cexW]
+  intro v P h
+  simp [aupd, cexSrc] at h
+  obtain ⟨_, rfl⟩ := h
+  exact scans_cex
+
+/-- witness 1 (remove): the first unlink fails with an injected ENOENT, `remove()` returns normally
+    and NOTHING was removed: the final world is clean, but the job the abstract operation deleted
+    is still there -/
+theorem remove_ok_but_not_done :
+    let o := run cexCodec (faultAt 0 .ENOENT) ((Op.remove cexSrc cexOrder : Op Nat).prog cexCodec) cexW
+    o.res = .ok ∧ (absW o.w cexSrc).isSome = true ∧
+      (((Op.remove cexSrc cexOrder : Op Nat).spec (absW cexW)).1 cexSrc).isSome = false := by
+  refine ⟨by decide, by decide, ?_⟩
+  simp [Op.spec, specRemove, aupd]
+
+/-- witness 2 (re-key): the removal of the parked backup fails with an injected ENOENT, the re-key
+    returns normally and the new directory keeps a backup file holding the OLD state point: not a
+    clean world -/
+theorem rekey_ok_but_not_clean :
+    let o := run cexCodec (faultAt 2 .ENOENT) ((Op.rekey cexSrc (0, "x") 2 : Op Nat).prog cexCodec) cexW
+    o.res = .ok ∧ ¬ Clean cexCodec o.w := by
+  refine ⟨by decide, fun hcl => ?_⟩
+  have hb := rekey_enoent_swallowed.2.2.2.1
+  simp only [bakPresent] at hb
+  split at hb
+  · rename_i d hd
+    have := (hcl (0, "x") d hd).bak
+    rw [this] at hb; cases hb
+  · cases hb
+
+/-- hence the statement over ALL schedules is false of the model (the code reads ENOENT as
+    "not there" by design; C11 excludes injected ENOENT for the same reason) -/
+theorem ok_means_done_false : ¬ ok_means_done_full := by
+  intro h
+  have h1 := h Nat cexCodec (.remove cexSrc cexOrder) cexW (faultAt 0 .ENOENT) cexW_clean cex_remove_pre
+    remove_ok_but_not_done.1
+  have h2 := remove_ok_but_not_done.2.1
+  have h3 := remove_ok_but_not_done.2.2
+  rw [h1.2.1, h3] at h2
+  cases h2
+
+/- ---- non-vacuity ---- -/
+/-- `ok_means_done_partial`: the clean world `cexW`, a re-key `j → x` (6 steps: park, rename, drop the
+    backup, open / write / rename the new state-point file) under a schedule with a process death
+    placed at step 6, i.e. right AFTER the last step of the run: hypotheses hold, the call returns ok -/
+example : Clean cexCodec cexW ∧ (Op.rekey cexSrc (0, "x") 2 : Op Nat).pre cexCodec (absW cexW) ∧
+    ((Op.rekey cexSrc (0, "x") 2 : Op Nat).readsENOENT → NoENOENT (crashAt 6)) ∧
+    crashAt 6 6 = some .crash ∧
+    (run cexCodec (crashAt 6) ((Op.rekey cexSrc (0, "x") 2 : Op Nat).prog cexCodec) cexW).res = .ok ∧
+    (run cexCodec (crashAt 6) ((Op.rekey cexSrc (0, "x") 2 : Op Nat).prog cexCodec) cexW).acc.n = 6 ∧
+    (run cexCodec (crashAt 5) ((Op.rekey cexSrc (0, "x") 2 : Op Nat).prog cexCodec) cexW).res = .crashed :=
+  ⟨cexW_clean, ⟨by decide, rfl⟩, fun _ => noENOENT_crashAt 6, rfl, by decide, by decide, by decide⟩
+
+/-- the same with a consumed non-ENOENT fault: never ok (so `ok_means_done_partial` is not about
+    fault-free schedules only, its hypothesis `res = ok` does the selecting) -/
+example : NoENOENT (faultAt 2 .EIO) ∧
+    (run cexCodec (faultAt 2 .EIO) ((Op.rekey cexSrc (0, "x") 2 : Op Nat).prog cexCodec) cexW).res ≠ .ok :=
+  ⟨noENOENT_faultAt 2 .EIO (by decide), by decide⟩
+
+/-- `ok_means_done_any_schedule`: init of an absent job (4 steps: mkdir, open / write / rename the
+    state-point file) under a schedule with an (even ENOENT) fault placed right after the last step -/
+example : ¬ (Op.init (0, "x") 2 false : Op Nat).readsENOENT ∧
+    (Op.init (0, "x") 2 false : Op Nat).pre cexCodec (absW cexW) ∧
+    (run cexCodec (faultAt 4 .ENOENT) ((Op.init (0, "x") 2 false : Op Nat).prog cexCodec) cexW).res = .ok :=
+  ⟨fun h => h, rfl, by decide⟩
 
 end Signac.Refinement
